@@ -5,6 +5,7 @@ CONSTANTS
   MaxReplies = 1
   LeakOnSendError = TRUE
   MatchCreation = TRUE
+  SeqCallers = FALSE
   RemoveOnTimeout = TRUE
 CHECK_DEADLOCK FALSE
 INVARIANT NothingLeft
